@@ -152,11 +152,40 @@ Proof.
   cbn [fst st set_store]. eapply prov_trans; [apply prov_revoke_refresh|apply prov_revoke_access].
 Qed.
 
+Lemma prov_fresh_grant s mk w : (forall rid, r_id (mk rid) = rid) -> prov (src s) (st s) (st (fst (fresh_grant s mk w))).
+Proof.
+  intros Hmk. unfold fresh_grant.
+  destruct (fresh_rid s) as [rid s1] eqn:E1.
+  destruct (fresh_rid_spec _ _ _ E1) as [Hrid [_ [Hst1 _]]].
+  rewrite <- Hst1. apply prov_grant_tokens. left. rewrite Hmk. assumption.
+Qed.
+
+Lemma prov_password_flow cfg s auth ok sc au g ga : prov (src s) (st s) (st (fst (password_flow cfg s auth ok sc au g ga))).
+Proof.
+  unfold password_flow.
+  destruct auth as [c|]; [|apply prov_refl]. destruct (clients s c) as [cl|]; [|apply prov_refl].
+  repeat match goal with |- context [if ?c then fail s _ else _] => destruct c; [apply prov_refl|] end.
+  match goal with |- context [fresh_grant s ?mk ?w] =>
+    pose proof (prov_fresh_grant s mk w (fun _ => eq_refl)) as G; destruct (fresh_grant s mk w) as [s2 minted] end.
+  exact G.
+Qed.
+
+Lemma prov_client_credentials_flow cfg s auth sc au g ga : prov (src s) (st s) (st (fst (client_credentials_flow cfg s auth sc au g ga))).
+Proof.
+  unfold client_credentials_flow.
+  destruct auth as [c|]; [|apply prov_refl]. destruct (clients s c) as [cl|]; [|apply prov_refl].
+  repeat match goal with |- context [if ?c then fail s _ else _] => destruct c; [apply prov_refl|] end.
+  match goal with |- context [fresh_grant s ?mk ?w] =>
+    pose proof (prov_fresh_grant s mk w (fun _ => eq_refl)) as G; destruct (fresh_grant s mk w) as [s2 minted] end.
+  exact G.
+Qed.
+
 Theorem prov_step cfg s o : prov (src s) (st s) (st (fst (step cfg s o))).
 Proof.
   destruct o; cbn [step].
   - apply prov_authorize. - apply prov_redeem. - apply prov_refresh_flow. - apply prov_revoke.
   - apply prov_refl. - apply prov_refl. - apply prov_refl.
+  - apply prov_password_flow. - apply prov_client_credentials_flow. - apply prov_refl.
 Qed.
 
 Lemma grant_tokens_next_rid s stored w : next_rid (fst (grant_tokens s stored w)) = next_rid s.
@@ -181,10 +210,32 @@ Proof.
   - cbn. congruence.
 Qed.
 
+Lemma fresh_grant_next_rid s mk w : next_rid (fst (fresh_grant s mk w)) = S (next_rid s).
+Proof.
+  unfold fresh_grant. destruct (fresh_rid s) as [rid s1] eqn:E1.
+  destruct (fresh_rid_spec _ _ _ E1) as [_ [_ [_ [Hn _]]]]. rewrite grant_tokens_next_rid. assumption.
+Qed.
+Lemma fresh_grant_codes s mk w : codes (st (fst (fresh_grant s mk w))) = codes (st s).
+Proof.
+  unfold fresh_grant. destruct (fresh_rid s) as [rid s1] eqn:E1.
+  destruct (fresh_rid_spec _ _ _ E1) as [_ [_ [Hst _]]]. rewrite grant_tokens_codes. congruence.
+Qed.
+
+Ltac new_flows_tac s lem k :=
+  match goal with
+  | |- context [password_flow _ s ?auth _ _ _ _ _] => unfold password_flow; destruct auth as [?c|]; [|k]
+  | |- context [client_credentials_flow _ s ?auth _ _ _ _] => unfold client_credentials_flow; destruct auth as [?c|]; [|k]
+  end;
+  match goal with |- context [clients s ?c] => destruct (clients s c) as [?cl|]; [|k] end;
+  repeat match goal with |- context [if ?c then fail s _ else _] => destruct c; [k|] end;
+  match goal with |- context [fresh_grant s ?mk ?w] =>
+    pose proof (lem s mk w) as FGfact; destruct (fresh_grant s mk w) as [?s2 ?minted] end.
+
 Lemma next_rid_step cfg s o : next_rid s <= next_rid (fst (step cfg s o)).
 Proof.
   pose proof (prov_step cfg s o) as _.
-  destruct o; cbn [step]; try (cbn; lia).
+  destruct o; cbn [step]; try (cbn; lia);
+    try (new_flows_tac s fresh_grant_next_rid ltac:(cbn; lia); cbn in *; lia).
   - unfold authorize.
     destruct (clients s (az_client a)) as [cl|]; [|cbn; lia].
     destruct (negb (scopes_ok cfg cl (az_scopes a))); [cbn; lia|].
@@ -352,7 +403,8 @@ Proof.
   assert (Hfresh : k < next_key s) by (exact (proj1 (inv_code_fresh s _ _ _ I H))).
   assert (G : forall x, codes x = codes (st s) -> exists r', codes x k = Some (false, r') /\ r_id r' = r_id r)
     by (intros x ->; eauto).
-  destruct o; cbn [step]; try (apply G; reflexivity).
+  destruct o; cbn [step]; try (apply G; reflexivity);
+    try (new_flows_tac s fresh_grant_codes ltac:(apply G; reflexivity); cbn in *; apply G; assumption).
   - unfold authorize.
     destruct (clients s (az_client a)) as [cl|]; [|eauto].
     destruct (negb (scopes_ok cfg cl (az_scopes a))); [eauto|].
